@@ -68,7 +68,9 @@ prop('C04', title='Incoming Interests reach exactly the handler of their longest
      bounded=[('bounded.c04', 'run', SH)],
      level_text='Unbounded proof of appv2 _on_interest against the assumed pygtrie contract of longest_prefix: only the handler stored at the '
                 'longest attached prefix can be invoked, at most once, none when nothing matches; reply transmits iff now <= deadline and '
-                'returns True iff it sent. Representation independence of attach/detach and the legacy front-end/dispatcher are bounded.',
+                'returns True iff it sent; attach_handler / detach_handler against an assumed trie (refused attach changes nothing, other '
+                'prefixes untouched); legacy _on_interest: longest registered prefix only, at most once, extras exactly as registered. '
+                'Representation independence of attach/detach and the legacy registration API are bounded.',
      level_note='pygtrie (longest_prefix, setdefault, __delitem__) is assumed and validated at run time by the bounded stand-in; '
                 'create_task is modelled as eager execution.',
      technique=T_MIXED)
@@ -76,8 +78,11 @@ prop('C05', title='Nothing that requires validation reaches the application unva
      bounded=[('bounded.c05', 'run', SH)],
      level_text='Unbounded proof for the current front-end: PendingIntEntry.satisfy maps every validator answer of any type (and a missing / '
                 'timed-out validator) to payload vs ValidationFailure carrying packet and verdict; _on_interest delivers a parameterised or '
-                'signed Interest only after a correct digest AND an accepting validator, plain Interests without consulting one. Deadline '
-                'behaviour and the legacy front-end are a bounded stand-in (one open known finding there).',
+                'signed Interest only after a correct digest AND an accepting validator, plain Interests without consulting one. Legacy '
+                'front-end: _wait_for_data hands Data to the caller only after the given (else the default) validator accepted exactly '
+                'this name and signature, every falsy answer is a ValidationFailure; legacy _on_interest delivers a signed Interest only '
+                'after digest AND the prefix\'s (else the application\'s) validator accepted. Deadline behaviour is a bounded stand-in '
+                '(one open known finding there).',
      level_note='Validators and handlers are arbitrary callables modelled by assumed contracts; the clock is a ghost variable.',
      technique=T_MIXED)
 prop('C06', title='Receive path: exact stream framing, and no failure on any delivered bytes', level='proof',
